@@ -515,5 +515,15 @@ m('createtable-nil-table-deref','C20',BT,
 		req.Table = &btapb.Table{}
 	}
 ''','','R16/(*server).CreateTable')
+# ---- R43: a nil scan bound (engines differ)
+m('droprowrange-nil-upper-bound','C17',BT,
+  '''		tbl.rows.AscendGreaterOrEqual(prefixBytes, func(r *btpb.Row) bool {
+			if bytes.HasPrefix(r.Key, prefixBytes) {''',
+  '''		var noEnd keyType
+		if len(prefixBytes) == 0 {
+			noEnd = keyType{}
+		}
+		tbl.rows.AscendRange(prefixBytes, noEnd, func(r *btpb.Row) bool {
+			if bytes.HasPrefix(r.Key, prefixBytes) {''','R43/(*server).DropRowRange','a nil upper bound: unbounded in leveldb, nothing in btree')
 json.dump(M, open('/verif/mutants.json','w'), indent=1)
 print(len(M),'mutants')
